@@ -150,9 +150,10 @@ def check_sac(ctx, idx):
     if alpha > 0:
         a_opt = algo.alpha_optimizer.init(log_alpha)
         outs = {}
+        train_key = jr.key(int(rng.integers(0, 2**31)))     # same key: same batch order in both runs
         for it in (0, 1):
             outs[it] = algo.sac_train(policy, opt_state, buf, qf1, qf2, qf1t, qf2t, q_opt, log_alpha, a_opt,
-                                      jnp.asarray(-1.0), jnp.asarray(it), key=jr.key(int(rng.integers(0, 2**31))))
+                                      jnp.asarray(-1.0), jnp.asarray(it), key=train_key)
         ctx.count("sac_train")
         rep = float(outs[0][7]["q_loss"])
         if not ctx.close(rep, m["q_loss"], 16.0):
@@ -182,7 +183,84 @@ def check_sac(ctx, idx):
         ctx.phi_fail("actor_gradient_only_for_policy", case, key="sac:actor-grad-structure")
 
 
+def check_dqn_train_path(ctx, idx):
+    """The generic entry point DQN.train(policy, opt_state, buffer) uses the online policy as its own
+    target: the update must still be the semi-gradient (read off the parameter delta under plain SGD)."""
+    import optax
+    rng = ctx.rng
+    env = random_tabular(rng)
+    nS, nA = int(env.T.shape[0]), int(env.T.shape[1])
+    B = int(rng.integers(4, 12))
+    gamma = float(rng.choice([0.5, 0.9, 0.99]))
+    q_on = rng.integers(-8, 9, (nS, nA)) / 4.0
+    online = TabularQPolicy(env, q_on)
+    buf, rows = _batch(rng, env, B, nS, box=False)
+    algo = DQN(buffer_size=B, batch_size=B, gamma=gamma, num_envs=1)
+    algo = eqx.tree_at(lambda a: a.optimizer, algo, optax.sgd(1.0))
+    opt_state = algo.optimizer.init(eqx.filter(online, eqx.is_inexact_array))
+    new_policy, _, log = algo.train(online, opt_state, buf, key=jr.key(int(rng.integers(0, 2**31))))
+    implied_grad = np.asarray(online.q, np.float64) - np.asarray(new_policy.q, np.float64)
+    batch = [{"s": r["s"], "q": q_on[r["s"]], "action": r["a"], "reward": r["r"], "done": r["done"],
+              "timeout": r["timeout"], "online_next": q_on[r["s2"]], "target_next": q_on[r["s2"]]} for r in rows]
+    m = ctx.drv.call("dqn_loss", gamma=gamma, n_states=nS, n_actions=nA, batch=batch)
+    case = {"kind": "dqn.train", "gamma": gamma, "rows": rows, "q_online": q_on, "implied_grad": implied_grad,
+            "model_semi_grad": m["grad"], "impl_loss": float(log["loss"]), "model_loss": m["loss"]}
+    ctx.case({"k": "dqn-train", "idx": idx, "rows": rows}, True, sample=case if idx == 0 else None)
+    ctx.count("dqn_train_path")
+    if not ctx.close(float(log["loss"]), m["loss"], 8.0):
+        ctx.phi_fail("dqn_target_is_r_plus_gamma_not_terminated_double_q", case, key="dqn-train:loss")
+    elif not ctx.close(implied_grad, np.asarray(m["grad"]), 16.0):
+        ctx.phi_fail("targets_are_constants_no_gradient_through_bootstrap", case, key="dqn-train:grad")
+
+
+def check_dqn_end_to_end(ctx, idx):
+    """Transitions stored by the real DQN.reset on a finite MDP under TimeLimit, then dqn_loss on the
+    stored buffer: the target must use terminated as defined by the MDP (Lean replay of every stored
+    row), so a step that both terminates and hits the time limit never bootstraps."""
+    from lerax.callback import CallbackList
+    from lerax.wrapper import TimeLimit
+    rng = ctx.rng
+    env0 = random_tabular(rng, p_term=0.25, p_trunc=0.0, n_noise=1)
+    n = int(rng.integers(1, 5))
+    env, desc = TimeLimit(env0, n), [{"w": "timeLimit", "n": n}]
+    nS, nA = int(env0.T.shape[0]), int(env0.T.shape[1])
+    q_on, q_tg = rng.integers(-8, 9, (nS, nA)) / 4.0, rng.integers(-8, 9, (nS, nA)) / 4.0
+    policy, target = TabularQPolicy(env0, q_on, epsilon=0.5), TabularQPolicy(env0, q_tg)
+    LS = int(rng.integers(8, 24))
+    gamma = 0.9
+    algo = DQN(buffer_size=LS, learning_starts=LS, num_envs=1, num_steps=1, batch_size=LS, gamma=gamma)
+    state = algo.reset(env, policy, key=jr.key(int(rng.integers(0, 2**31))), callback=CallbackList(callbacks=[]))
+    buf = state.step_state.buffer
+    tab = env0.describe()
+    batch, kinds = [], []
+    for j in range(LS):
+        s, clock = int(buf.observations[j][0]), int(buf.observations[j][1])
+        a = int(buf.actions[j])
+        comp = ctx.drv.call("tab_components", tab=tab, stack=desc,
+                            state={"s": s, "clock": clock, "noise": 0, "counters": [clock]}, action=float(a), noise=0)
+        term, trunc = comp["terminal"], comp["truncate"]
+        s2 = int(comp["next"]["s"])
+        kinds.append("both" if term and trunc else "terminated" if term else "truncated" if trunc else "running")
+        batch.append({"s": s, "q": q_on[s], "action": a, "reward": comp["reward"], "done": term or trunc,
+                      "timeout": trunc and not term, "online_next": q_on[s2], "target_next": q_tg[s2]})
+    m = ctx.drv.call("dqn_loss", gamma=gamma, n_states=nS, n_actions=nA, batch=batch)
+    loss = float(DQN.dqn_loss(policy, buf, target, gamma))
+    case = {"kind": "dqn-end-to-end", "time_limit": n, "step_kinds": kinds, "impl_loss": loss, "model_loss": m["loss"],
+            "stored_dones": np.asarray(buf.dones), "stored_timeouts": np.asarray(buf.timeouts)}
+    ctx.case({"k": "dqn-e2e", "idx": idx, "kinds": kinds, "a": [b["action"] for b in batch]}, True,
+             sample=case if idx == 0 else None)
+    ctx.count("dqn_end_to_end")
+    for k in kinds:
+        ctx.count("e2e-step:" + k)
+    if not ctx.close(loss, m["loss"], 8.0):
+        ctx.phi_fail("stored_transitions_never_bootstrap_through_termination", case, key="dqn-e2e:loss")
+
+
 def run(ctx):
+    for i in range(ctx.budget(4, 20)):
+        check_dqn_train_path(ctx, i)
+    for i in range(ctx.budget(6, 30)):
+        check_dqn_end_to_end(ctx, i)
     for i in range(ctx.budget(12, 80)):
         check_dqn(ctx, i)
     for i in range(ctx.budget(6, 40)):
